@@ -49,7 +49,7 @@ def tlc(module, cfg, workers=4, env=None, timeout=3600, extra=(), heap="3g", tag
     if _CP is None:
         _CP = _classpath()
     meta = tempfile.mkdtemp(prefix="meta-%s-" % (tag or module), dir=run_dir())
-    cmd = ["java", "-Xmx" + heap, "-XX:+UseParallelGC", "-cp", _CP, "tlc2.TLC",
+    cmd = ["java", "-Xmx" + heap, "-Xss32m", "-XX:+UseParallelGC", "-cp", _CP, "tlc2.TLC",
            "-workers", str(workers), "-metadir", meta, "-noGenerateSpecTE", "-config", cfg]
     if coverage:
         cmd += ["-coverage", "1"]
